@@ -595,4 +595,153 @@ theorem complete_aux (rules : List Term) (inp : Str)
     obtain ⟨f, rfl⟩ : ∃ g, f = g + 1 := ⟨f - 1, by omega⟩
     simp only [run, hσ, Bool.false_eq_true, ↓reduceIte, hi]
 
+/-! ### positions -/
+
+theorem prim_mono {inp : Str} {pos q : Nat} {v : Val} {p : Prim} (h : p.run inp pos = some (q, v)) : pos ≤ q := by
+  cases p <;> simp only [Prim.run] at h
+  · split at h <;> simp at h; omega
+  · split at h <;> simp at h; omega
+  · split at h
+    · split at h <;> simp at h; omega
+    · simp at h
+  · split at h <;> simp at h; omega
+  · split at h <;> simp at h; omega
+  · split at h <;> simp at h; omega
+
+/-- no parser ever moves backwards -/
+theorem pos_mono_all (rules : List Term) (inp : Str) : ∀ f,
+    (∀ t pos σ p v σ', run rules inp f t pos σ = (.ok p v, σ') → pos ≤ p) ∧
+    (∀ ts pos σ p vs σ', runSeq rules inp f ts pos σ = (.ok p vs, σ') → pos ≤ p) ∧
+    (∀ ts pos σ p v σ', runChoice rules inp f ts pos σ = (.ok p v, σ') → pos ≤ p) ∧
+    (∀ t pos σ p vs σ', runMany rules inp f t pos σ = (.ok p vs, σ') → pos ≤ p) ∧
+    (∀ t pr pos σ p vs σ', runUntil rules inp f t pr pos σ = (.ok p vs, σ') → pos ≤ p) := by
+  intro f
+  induction f with
+  | zero => refine ⟨?_, ?_, ?_, ?_, ?_⟩ <;> intros <;> simp_all [run, runSeq, runChoice, runMany, runUntil]
+  | succ f ih =>
+    obtain ⟨ihR, ihS, ihC, ihM, ihU⟩ := ih
+    refine ⟨?_, ?_, ?_, ?_, ?_⟩
+    · intro t pos σ p v σ' h
+      by_cases hσ : σ.ferr = true
+      · have : run rules inp (f + 1) t pos σ = (.fail, σ) := by cases t <;> simp [run, hσ]
+        rw [this] at h; cases h
+      replace hσ : σ.ferr = false := by simpa using hσ
+      cases t with
+      | prim pr =>
+        simp only [run, hσ, Bool.false_eq_true, ↓reduceIte] at h
+        cases hp : pr.run inp pos with
+        | none => rw [hp] at h; cases h
+        | some qv => obtain ⟨q, w⟩ := qv; rw [hp] at h; cases h; exact prim_mono hp
+      | seq ts =>
+        simp only [run, hσ, Bool.false_eq_true, ↓reduceIte] at h
+        rcases hs : runSeq rules inp f ts pos σ with ⟨_ | _ | _, σ1⟩ <;> rw [hs] at h <;> simp only [LRes.toRes] at h <;> cases h
+        exact ihS _ _ _ _ _ _ hs
+      | choice ts =>
+        simp only [run, hσ, Bool.false_eq_true, ↓reduceIte] at h
+        exact ihC _ _ _ _ _ _ h
+      | many t lower =>
+        simp only [run, hσ, Bool.false_eq_true, ↓reduceIte] at h
+        rcases hm : runMany rules inp f t pos σ with ⟨_ | _ | _, σ1⟩ <;> rw [hm] at h <;> simp only [LRes.toRes] at h
+        · split at h <;> cases h
+          exact ihM _ _ _ _ _ _ hm
+        all_goals cases h
+      | «until» t pr =>
+        simp only [run, hσ, Bool.false_eq_true, ↓reduceIte] at h
+        rcases hs : runUntil rules inp f t pr pos σ with ⟨_ | _ | _, σ1⟩ <;> rw [hs] at h <;> simp only [LRes.toRes] at h <;> cases h
+        exact ihU _ _ _ _ _ _ _ hs
+      | opt t d =>
+        simp only [run, hσ, Bool.false_eq_true, ↓reduceIte] at h
+        rcases ha : run rules inp f t pos σ with ⟨_ | _ | _, σ1⟩ <;> rw [ha] at h <;> simp only at h <;> cases h
+        · exact ihR _ _ _ _ _ _ ha
+        · exact Nat.le_refl _
+      | followedBy a b =>
+        simp only [run, hσ, Bool.false_eq_true, ↓reduceIte] at h
+        rcases ha : run rules inp f a pos σ with ⟨_ | _ | _, σ1⟩ <;> rw [ha] at h <;> simp only at h
+        · rcases hb : run rules inp f b _ σ1 with ⟨_ | _ | _, σ2⟩ <;> rw [hb] at h <;> simp only at h <;> cases h
+          exact ihR _ _ _ _ _ _ ha
+        all_goals cases h
+      | notFollowedBy a b =>
+        simp only [run, hσ, Bool.false_eq_true, ↓reduceIte] at h
+        rcases ha : run rules inp f a pos σ with ⟨_ | _ | _, σ1⟩ <;> rw [ha] at h <;> simp only at h
+        · rcases hb : run rules inp f b _ σ1 with ⟨_ | _ | _, σ2⟩ <;> rw [hb] at h <;> simp only at h <;> cases h
+          exact ihR _ _ _ _ _ _ ha
+        all_goals cases h
+      | keepLeft a b =>
+        simp only [run, hσ, Bool.false_eq_true, ↓reduceIte] at h
+        rcases ha : run rules inp f a pos σ with ⟨_ | _ | _, σ1⟩ <;> rw [ha] at h <;> simp only at h
+        · rcases hb : run rules inp f b _ σ1 with ⟨_ | _ | _, σ2⟩ <;> rw [hb] at h <;> simp only at h <;> cases h
+          exact Nat.le_trans (ihR _ _ _ _ _ _ ha) (ihR _ _ _ _ _ _ hb)
+        all_goals cases h
+      | keepRight a b =>
+        simp only [run, hσ, Bool.false_eq_true, ↓reduceIte] at h
+        rcases ha : run rules inp f a pos σ with ⟨_ | _ | _, σ1⟩ <;> rw [ha] at h <;> simp only at h
+        · exact Nat.le_trans (ihR _ _ _ _ _ _ ha) (ihR _ _ _ _ _ _ h)
+        all_goals cases h
+      | map t fn =>
+        simp only [run, hσ, Bool.false_eq_true, ↓reduceIte] at h
+        rcases ha : run rules inp f t pos σ with ⟨_ | _ | _, σ1⟩ <;> rw [ha] at h <;> simp only at h
+        · split at h <;> cases h
+          exact ihR _ _ _ _ _ _ ha
+        all_goals cases h
+      | lift fn ts =>
+        simp only [run, hσ, Bool.false_eq_true, ↓reduceIte] at h
+        rcases hs : runSeq rules inp f ts pos σ with ⟨_ | _ | _, σ1⟩ <;> rw [hs] at h <;> simp only [LRes.toRes] at h
+        · split at h <;> cases h
+          exact ihS _ _ _ _ _ _ hs
+        all_goals cases h
+      | wrapper t =>
+        simp only [run, hσ, Bool.false_eq_true, ↓reduceIte] at h
+        exact ihR _ _ _ _ _ _ h
+      | ref i =>
+        simp only [run, hσ, Bool.false_eq_true, ↓reduceIte] at h
+        cases hi : rules[i]? with
+        | none => rw [hi] at h; cases h
+        | some t => rw [hi] at h; exact ihR _ _ _ _ _ _ h
+      | startTag t =>
+        simp only [run, hσ, Bool.false_eq_true, ↓reduceIte] at h
+        rcases ha : run rules inp f t pos σ with ⟨_ | _ | _, σ1⟩ <;> rw [ha] at h <;> simp only at h <;> cases h
+        exact ihR _ _ _ _ _ _ ha
+      | endTag t ic =>
+        simp only [run, hσ, Bool.false_eq_true, ↓reduceIte] at h
+        rcases ha : run rules inp f t pos σ with ⟨_ | _ | _, σ1⟩ <;> rw [ha] at h <;> simp only at h
+        · split at h
+          · cases h
+          · split at h <;> cases h
+            exact ihR _ _ _ _ _ _ ha
+        all_goals cases h
+    · intro ts pos σ p vs σ' h
+      cases ts with
+      | nil => simp only [runSeq] at h; cases h; exact Nat.le_refl _
+      | cons t ts =>
+        simp only [runSeq] at h
+        rcases ha : run rules inp f t pos σ with ⟨_ | _ | _, σ1⟩ <;> rw [ha] at h <;> simp only at h
+        · rcases hb : runSeq rules inp f ts _ σ1 with ⟨_ | _ | _, σ2⟩ <;> rw [hb] at h <;> simp only at h <;> cases h
+          exact Nat.le_trans (ihR _ _ _ _ _ _ ha) (ihS _ _ _ _ _ _ hb)
+        all_goals cases h
+    · intro ts pos σ p v σ' h
+      cases ts with
+      | nil => simp only [runChoice] at h; cases h
+      | cons t ts =>
+        simp only [runChoice] at h
+        rcases ha : run rules inp f t pos σ with ⟨_ | _ | _, σ1⟩ <;> rw [ha] at h <;> simp only at h
+        · cases h; exact ihR _ _ _ _ _ _ ha
+        · exact ihC _ _ _ _ _ _ h
+        · cases h
+    · intro t pos σ p vs σ' h
+      simp only [runMany] at h
+      rcases ha : run rules inp f t pos σ with ⟨_ | _ | _, σ1⟩ <;> rw [ha] at h <;> simp only at h
+      · rcases hb : runMany rules inp f t _ σ1 with ⟨_ | _ | _, σ2⟩ <;> rw [hb] at h <;> simp only at h <;> cases h
+        exact Nat.le_trans (ihR _ _ _ _ _ _ ha) (ihM _ _ _ _ _ _ hb)
+      · cases h; exact Nat.le_refl _
+      · cases h
+    · intro t pr pos σ p vs σ' h
+      simp only [runUntil] at h
+      rcases hp : run rules inp f pr pos σ with ⟨_ | _ | _, σ1⟩ <;> rw [hp] at h <;> simp only at h
+      · cases h; exact Nat.le_refl _
+      · rcases ha : run rules inp f t pos σ1 with ⟨_ | _ | _, σ2⟩ <;> rw [ha] at h <;> simp only at h
+        · rcases hb : runUntil rules inp f t pr _ σ2 with ⟨_ | _ | _, σ3⟩ <;> rw [hb] at h <;> simp only at h <;> cases h
+          exact Nat.le_trans (ihR _ _ _ _ _ _ ha) (ihU _ _ _ _ _ _ _ hb)
+        · cases h; exact Nat.le_refl _
+        · cases h
+      · cases h
 end IV.Peg
